@@ -301,7 +301,12 @@ impl<'a> W2<'a> {
                 }
                 (Err(()), Err(())) => self.stats.hit("w2_both_panicked"),
             }
-            if let Some((p, oracle, detail)) = o.extra {
+            if let Some(("C15+C17", oracle, detail)) = o.extra {
+                // both properties state it: the boxed slice a vector is turned into owns exactly
+                // the vector's elements (C15), the conversion preserves the value (C17)
+                self.violate("C15", oracle, "", &name, detail.clone());
+                self.violate("C17", oracle, "", &name, detail);
+            } else if let Some((p, oracle, detail)) = o.extra {
                 if self.focus.map(|f| f != p).unwrap_or(false) {
                     // a capacity claim that is another property's business: remember it and go
                     // on, so that what it leads to (a neighbour overwritten) is seen as well
